@@ -413,6 +413,12 @@ func parseCtl(data string, memoizer plugintypes.Memoizer) (ctlFunctionType, stri
 		if len(rxPattern) == 0 {
 			return ctlUnknown, "", 0, "", nil, errors.New("empty regex pattern in ctl collection key")
 		}
+		// Like `!VAR:/re/` in a rule (Rule.AddVariableNegation): exceptions are matched against
+		// the lower-cased key, so the expression is lower-cased too unless the variable is
+		// case sensitive. Without this an expression with an upper-case letter never excludes.
+		if !corazawaf.CaseSensitiveVariable(collection) {
+			rxPattern = strings.ToLower(rxPattern)
+		}
 		var err error
 		if memoizer != nil {
 			re, compileErr := memoizer.Do("re:"+rxPattern, func() (any, error) { return regexp.Compile(rxPattern) })
